@@ -38,6 +38,8 @@ TABLE = [
      "reset threshold >= 1 with a record whose values alone exceed the index capacity: endless reset, producer panicked with 'Too many consecutive schema updates'"),
     ("fix: consumer propagates related-data errors", "C07", "no-silent-loss", "", "related-data-error-dropped", 120,
      "TracesFrom / LogsFrom ignored the error of RelatedDataFrom and returned success with no telemetry although a main record was present"),
+    ("fix: the main record returned by RelatedDataFrom", "C07", "no-panic", "", "main-record-released-early", 200,
+     "RelatedDataFrom released the main record it returns; a main payload delivered twice (second time under a related label) made the consumer index a freed record and panic"),
     ("fix: batches with more parents than 16-bit", "C08", "no-panic", "", "overlimit-panic", 3000,
      "more than 65,535 groups of attributes / events / links, or more than 65,536 ids, panicked instead of returning an error"),
 ]
